@@ -449,12 +449,16 @@ def single_key_removal_discipline(prog, rep, rid, fnames, what):
     node_fns = [f for f in crate.top_fns() if f.path.startswith(NODE + '::')]
     shr = {short(f.path) for f in node_fns if _shrinks(crate, f)}
     n = 0
+    node_paths = {f.path for f in node_fns}
     for fname in fnames:
-        f = crate.fn(f'{STORE}::{fname}')
-        b = Bindings(crate, f)
-        for nd, anc in crate.walk_fn(f):
+        f0 = crate.fn(f'{STORE}::{fname}')
+        bs = {}
+        # private helpers the function calls are part of it (a de-duplicated "trim and report" block, for instance)
+        for nd, anc, f in crate.walk_fn_deep(f0, exclude=node_paths | {f0.path} | {f'{STORE}::{x}' for x in
+                                                                                 ('ncollect_matches', 'ndelete_matches', 'ndelete_child_matches', 'ndelete', 'ndelete_lock_nodes')}):
             if nd.get('k') != 'call' or not nd['args']:
                 continue
+            b = bs.setdefault(f.path, Bindings(crate, f))
             c = callee(nd)
             sh = short(c)
             raw = sh in SHRINK_CALLS and ('HashMap' in c or 'BTreeMap' in c) and any('param(node)' in x for x in b.origins(nd['args'][0]))
@@ -494,10 +498,13 @@ def rule_f(prog, rep):
     shr = {short(f.path): f for f in node_fns if _shrinks(crate, f)}
     n = 0
     trav = [crate.fn(f'{STORE}::{x}') for x in ('ndelete_matches', 'ndelete_child_matches', 'ncollect_matches')]
-    for f in trav:
-        b = Bindings(crate, f)
-        name = short(f.path)
-        for nd, anc in crate.walk_fn(f):
+    node_paths = {f.path for f in node_fns}
+    trav_paths = {f.path for f in trav}
+    for f0 in trav:
+        name = short(f0.path)
+        bs = {}
+        for nd, anc, f in crate.walk_fn_deep(f0, exclude=node_paths | trav_paths | {f'{STORE}::ndelete'}):
+            b = bs.setdefault(f.path, Bindings(crate, f))
             if nd.get('k') == 'assign' and nd['l'].get('k') == 'field' and nd['l']['name'] in ('tree', 'value') and \
                     'Node' in str(nd['l'].get('base_ty')):
                 n += 1
